@@ -581,7 +581,7 @@ def unbounded_stream(ctx, ExcelCompiler):
                     perts = [('text', 'zz' if v != 'zz' else 'yy'), ('number', 12345), ('error', '#N/A')]
                 else:
                     perts = [('2tol', v + 2 * t + (1 if tol is None else 0)), ('plus1', v + 1 + t), ('text', 'zz'),
-                             ('error', '#DIV/0!'), ('logical', True if v not in (0, 1) else 'yes')]
+                             ('error', '#DIV/0!'), ('logical', True if abs(v - 1) > 2 * t + 1 else 'yes')]      # TRUE is the number 1 to close_enough
                 kind, v2 = rng.choice(perts)
                 altered = dict(good)
                 altered[p] = v2
